@@ -52,8 +52,9 @@ namespace Basis
 
 variable (b : Basis K)
 
-/-- Total knot accessor (0 outside the array; never reached on valid input). -/
-def kn (i : ℕ) : K := b.knots.getD i 0
+/-- Total knot accessor: constant extension by the last knot beyond the array (never reached on
+    valid input; chosen so that `b.kn` is monotone iff the array is sorted). -/
+def kn (i : ℕ) : K := b.knots.getD i (b.knots.getD (b.knots.size - 1) 0)
 
 def size : ℕ := b.knots.size
 /-- `n_all = len(knots) - p`. -/
